@@ -48,6 +48,10 @@ def strategy(tier):
 
     from props.c06 import _case as implicit_case
 
+    # exact two-parameter problems handed over as ONE symbolic matrix with a mixed monomial of unequal powers (x*y**2):
+    # the library Taylor-expands the input lazily, so the expansion itself has a request history
+    symm = problems(tier, hermitian=True, reprs=("sympy",), max_N=4, max_blocks=2, max_params=2, forms=("symmatrix",), max_K=3)
+
     @st.composite
     def cases(draw):
         if draw(st.integers(0, 4)) == 0:
@@ -56,6 +60,14 @@ def strategy(tier):
             if not draw(st.booleans()):
                 imp["solver"] = "direct"  # otherwise as drawn: direct, direct + eigenvalue_atol, KPM, KPM + auxiliary vectors
             p = {"implicit": imp, "n_params": imp["n_params"], "blocks": list(imp["sizes"]) + [imp["n"] - sum(imp["sizes"])], "K": imp["K"]}
+        elif draw(st.integers(0, 5)) == 0:
+            p = draw(symm)
+            if p["n_params"] == 2:
+                terms = dict(p["terms"])
+                first = sorted(s_ for s_ in terms if sum(int(x) for x in s_.split(",")) == 1)
+                terms.setdefault("1,2", terms[first[0]])
+                terms.setdefault("2,1", terms[first[-1]])
+                p = dict(p, terms=terms, K=3)
         else:
             p = draw(st.one_of(herm, herm, nh))
         k, nb, K = p["n_params"], len(p["blocks"]), p["K"]
@@ -80,6 +92,12 @@ def strategy(tier):
                 ops.append(["repeat", draw(st.integers(0, 50))])
             else:
                 ops.append(["new"])
+        if p.get("form") == "symmatrix" and k == 2:
+            # a history that reaches the mixed orders through a lower mixed one: (1,1) first, then (1,2) and (2,1)
+            name_ = draw(st.sampled_from(["H_tilde", "H_tilde", "U"]))
+            bi = draw(st.integers(0, nb - 1))
+            bj = bi if name_ == "H_tilde" else draw(st.integers(0, nb - 1))
+            ops = [["get", 0, name_, bi, bj, 1, 1], ["get", 0, name_, bi, bj, 1, 2], ["get", 0, name_, bi, bj, 2, 1]] + ops
         return {"problem": p, "ops": ops, "input_form": draw(st.sampled_from(["dict", "dict", "blockseries_data"]))}
 
     return cases()
